@@ -373,6 +373,19 @@ pub struct GroupConfig {
     pub paths: Vec<Path>,
 }
 
+/// Converts a line read from the standard input to a path.
+/// The path doesn't have to be valid UTF-8.
+#[cfg(unix)]
+fn path_from_bytes(bytes: Vec<u8>) -> Path {
+    use std::os::unix::ffi::OsStringExt;
+    Path::from(OsString::from_vec(bytes))
+}
+
+#[cfg(not(unix))]
+fn path_from_bytes(bytes: Vec<u8>) -> Path {
+    Path::from(String::from_utf8_lossy(&bytes).trim_end_matches('\r'))
+}
+
 /// Returns the path of a scanned root in the form in which the paths of the files are reported:
 /// with `.`, `..`, redundant separators and symbolic links to directories resolved.
 pub fn canonical_root(p: &Path) -> Path {
@@ -532,8 +545,8 @@ impl GroupConfig {
         if self.stdin {
             Box::new(
                 BufReader::new(stdin())
-                    .lines()
-                    .map(move |s| base_dir.resolve(Path::from(s.unwrap().as_str()))),
+                    .split(b'\n')
+                    .map(move |line| base_dir.resolve(path_from_bytes(line.unwrap()))),
             )
         } else {
             Box::new(
